@@ -18,6 +18,13 @@ CLAIMED = {
  "C09": ("PBT with reference-trained dictionaries, reference compressor and dictionary-aware synthesizer; histories on one decoder", "5 C09"),
  "C10": ("PBT + exhaustive prefix enumeration: multi-frame lists with faults, every strict prefix of small frames", "5 C10"),
  "C11": ("exhaustive enumeration of header variant x limit class x history position x front end with closed-form oracle and allocation observer", "5 C11"),
+ "C02": ("round-trip PBT: compressor histories (reuse, levels, fragmented sources, boundary-seeking inputs) decoded by libzstd and by this crate", "5 C02"),
+ "C08": ("PBT with an independent XXH64: drain programs on the decoder, reuse histories on the compressor, libzstd verifies trailers", "5 C08"),
+ "C12": ("PBT + exhaustive small family: constructive normalized distributions vs spec decoding table state by state; encoder tables/streams via hooks vs spec model (round trip both ways)", "5 C12"),
+ "C13": ("exhaustive over all 255 alphabet sizes + PBT: Kraft/prefix/canonical checks, description round trip vs spec model and decoder, exhaustive direct weight descriptions", "5 C13"),
+ "C15": ("PBT with validity predicate: independent strict frame walker over compressor output + closed-form size bound", "5 C15"),
+ "C16": ("PBT over programs: scripted Matcher replaying generated valid parses / libzstd parses; libzstd + own decoder + walker confirm", "5 C16"),
+ "C17": ("stateful PBT + exhaustive small family: validity predicate over every sequence reported by the built-in matcher across eviction/skip/reset histories", "5 C17"),
  "C14": ("exhaustive enumeration of finite tables / header spaces against RFC 8878 tables (cross-checked with libzstd source)", "5 C14"),
 }
 
